@@ -196,6 +196,21 @@ def f3(ctx):
         ev, res = ctx.eval(b, no_inline=NOINLINE)
         srch = [e for e in res.log if e["kind"] == "call" and not e["chain"] and e["callee"].endswith("find_prev_and_next")]
         errs = [r for r in res.log if r["kind"] == "ret0" and not r["chain"] and tag(r["value"]) == "variant" and r["value"][2] == "Err" and "InsufficientSpace" in show(r["value"])]
+        if len(errs) > 1:
+            # an error return that the search's postcondition rules out (`let Some(..) = seg.split_at(size) else { return Err(..) }` behind a search that only
+            # returns segments of at least `size` bytes) is not a way to fail: judged with the search evaluated in place
+            ev2, res2 = ctx.eval(b, no_inline=tuple(p_ for p_ in NOINLINE if "find_prev_and_next" not in p_))
+            post = set()
+            for c_ in res2.log:
+                if c_["kind"] == "call" and c_.get("inlined") and c_["callee"].endswith("find_prev_and_next"):
+                    post |= set(callee_variant_facts(ctx, ev2, c_, ("Some",)))
+            dead = set()
+            for r2 in res2.log:
+                if r2["kind"] == "ret0" and not r2["chain"] and tag(r2["value"]) == "variant" and r2["value"][2] == "Err":
+                    d2 = D.block_dnf(ev2, res2, b, r2["bb"], lit=canon)
+                    if d2 is not None and all(D.conj_unsat(set(c2) | post) for c2 in d2):
+                        dead.add(r2["bb"])
+            errs = [r for r in errs if r["bb"] not in dead]
         ok = len(srch) == 1 and len(errs) == 1 and srch[0]["args"][1] == SIZE
         if ok:
             fs = ctx.facts_of(ev, errs[0])
